@@ -423,7 +423,7 @@ pub fn run(cfg: &Config) -> i32 {
     let tmp = scratch_dir(cfg, "c11");
     let budget = Duration::from_secs_f64(cfg.pick(25.0, 240.0) * cfg.scale);
     let mut stats = parallel(cfg, "analysis", cfg.scaled(cfg.pick(60_000, 5_000_000)), budget, |idx, r, st| analysis_case(cfg, &tmp, idx, r, st));
-    let s2 = parallel(cfg, "enforcement", cfg.scaled(cfg.pick(4000, 1_000_000)), budget, |idx, r, st| enforcement_case(cfg, &tmp, idx, r, st));
+    let s2 = parallel(cfg, "enforcement", cfg.scaled(cfg.pick(12_000, 1_000_000)), budget, |idx, r, st| enforcement_case(cfg, &tmp, idx, r, st));
     stats.merge(s2);
     let _ = std::fs::remove_dir_all(&tmp);
     finish(
